@@ -27,9 +27,13 @@ JSON
   (cd mc && go build -tags "verif vshim" -overlay ../bin/overlay/overlay.json -o ../bin/check-sched ./cmd/check)
 }
 
+# C11's free-running pass: the same harness built with the race detector
+build_race() { (cd mc && CGO_ENABLED=1 go build -race -tags verif -o ../bin/check-race ./cmd/check); }
+
 if [ "$1" = "--setup" ]; then
   build_plain
   build_sched
+  build_race
   echo "setup ok"
   exit 0
 fi
@@ -37,5 +41,6 @@ ID="$1"; shift
 ulimit -c 0
 case "$ID" in
   C12) build_sched; exec ./bin/check-sched "$ID" "$@" ;;
+  C11) build_plain; build_race; exec ./bin/check "$ID" "$@" ;;
   *)   build_plain; exec ./bin/check "$ID" "$@" ;;
 esac
